@@ -31,8 +31,10 @@ def run(ctx):
     positions_agree(ctx)
     result_types(ctx)
     v1_insert_progress(ctx)
-    if ctx.thorough:
-        c_regexes(ctx)
+    c_regexes(ctx)      # (was thorough-only; 45 patterns, a few milliseconds)
+    keyword_terminals_one_line(ctx)
+    single_statement_files(ctx)
+    docstring_count_ignores_comments(ctx)
 
 
 def a_b_conversion(ctx):
@@ -329,6 +331,75 @@ def layout_facts(ctx):
 
 
 # ---------------------------------------------------------------------------------
+def keyword_terminals_one_line(ctx):
+    """Layout must reach the indenter: only the newline family of terminals (`_NEWLINE`, and `_AND` / `_OR` for continuation lines) may consume a line break.  A keyword
+    terminal written with `\\s` also matches `keyword<NL><indent>keyword`, the line break disappears inside the token and the indenter never sees the body's indentation (F104:
+    `else` + newline + `if`).  Each such terminal is evaluated on its own words joined by a line break."""
+    g = ctx.tree.text(LARK)
+    n = 0
+    for ln, line in enumerate(g.splitlines(), 1):
+        m = re.match(r"^([A-Z_][A-Z_0-9]*)(\.\d+)?\s*:\s*/((?:\\.|[^/\\])+)/([a-z]*)\s*$", line)
+        if not m or m.group(1) in ("_NEWLINE", "_AND", "_OR", "COMMENT", "STRING", "LONG_STRING", "WS", "WS_INLINE"):
+            continue
+        pat, flags = m.group(3), m.group(4)
+        if "\\s" not in pat:
+            continue
+        words = re.findall(r"[a-z]{2,}", re.sub(r"\\[a-zA-Z]", " ", re.sub(r"\(\?[<!=]+[^)]*\)", " ", pat)))
+        probes = ["%s\n    %s" % (a_, b_) for a_ in words for b_ in words if a_ != b_]
+        n += 1
+        try:
+            rx = re.compile(pat, re.S if "s" in flags else 0)
+        except re.error:
+            continue
+        hit = [p_ for p_ in probes if rx.fullmatch(p_)]
+        ctx.check("C13.layout", LARK, m.group(1), "keyword terminal does not reach across a line break", not hit,
+                  "the terminal matches within one line only" if not hit else
+                  "the terminal matches %r: a keyword at the end of one line and a keyword at the start of the next (indented) line are lexed as ONE token, the indentation of the body "
+                  "is lost and the file is rejected - adding an end-of-line comment after the first keyword makes it parse" % hit[0], line=ln)
+    ctx.floor("C13.layout", LARK, "keyword terminals that use white-space classes", n, 1)
+
+
+def docstring_count_ignores_comments(ctx):
+    """The pre-parsing pass tracks docstrings by counting triple quotes per line.  An end-of-line comment may contain triple quotes too; counted on the RAW line they flip the
+    "in docstring" state, and the `...` statements below are no longer expanded (F107).  The count has to be taken on the line without its comment."""
+    P2 = "nemoguardrails/colang/v2_x/lang/parser.py"
+    t = ctx.tree.ast(P2)
+    fn = find_function(t, "_apply_pre_parsing_expansions")
+    if fn is None:
+        raise AnalysisError("_apply_pre_parsing_expansions not found", anchor=P2 + "::_apply_pre_parsing_expansions")
+    counts = [c for c in ast.walk(fn) if isinstance(c, ast.Call) and isinstance(c.func, ast.Attribute) and c.func.attr == "count" and c.args
+              and isinstance(c.args[0], ast.Constant) and c.args[0].value == '\"\"\"']
+    ctx.floor("C13.layout", P2, "docstring tracking by counting triple quotes", len(counts), 1)
+    for c in counts:
+        recv = c.func.value
+        raw = isinstance(recv, ast.Name) and any(
+            isinstance(a, ast.Assign) and any(isinstance(t_, ast.Name) and t_.id == recv.id for t_ in a.targets) and isinstance(a.value, ast.Subscript) and not any(
+                isinstance(x, ast.Call) for x in ast.walk(a.value)) for a in ast.walk(fn))
+        ctx.check("C13.layout", P2, "ColangParser._apply_pre_parsing_expansions", "triple quotes are counted outside comments", not raw,
+                  "the docstring state is computed from the line without its comment" if not raw else
+                  "triple quotes are counted on the raw line: an end-of-line comment that contains them flips the docstring state, the `...` statements that follow are not expanded and "
+                  "the file is rejected (or parses to different flows) - adding a comment changes the parse", line=c.lineno)
+
+
+def single_statement_files(ctx):
+    """`?start` is inlined by lark when a file has exactly one statement: the transformer then returns that bare element instead of a sequence.  parse_content must accept
+    every kind of statement that can stand alone at top level (a flow, an import) - otherwise adding a blank line or a comment changes whether the file loads (F105)."""
+    P2 = "nemoguardrails/colang/v2_x/lang/parser.py"
+    t = ctx.tree.ast(P2)
+    fn = find_function(t, "parse_content")
+    if fn is None:
+        raise AnalysisError("parse_content not found", anchor=P2 + "::parse_content")
+    kinds = set()
+    for c in ast.walk(fn):
+        if isinstance(c, ast.Call) and src(c.func) == "isinstance" and len(c.args) == 2 and src(c.args[0]) == "data":
+            kinds |= {src(x) for x in (c.args[1].elts if isinstance(c.args[1], ast.Tuple) else [c.args[1]])}
+    ok = {"Flow", "Import"} <= kinds or not kinds
+    ctx.check("C13.layout", P2, "ColangParser.parse_content", "a file with a single top-level statement", ok,
+              "a bare Flow and a bare Import are both accepted" if ok else
+              "only %s is accepted as a bare top-level element: a file whose only statement is an `import` fails with \"'NoneType' object is not iterable\", while the same file with a "
+              "blank line in front loads" % sorted(kinds), line=fn.lineno)
+
+
 def c_regexes(ctx):
     try:
         import re._parser as sre
@@ -349,7 +420,60 @@ def c_regexes(ctx):
             if isinstance(c, ast.Call) and isinstance(c.func, ast.Attribute) and isinstance(c.func.value, ast.Name) and c.func.value.id == "re" and c.args \
                     and isinstance(c.args[0], ast.Constant) and isinstance(c.args[0].value, str):
                 regs.append((rel, c.lineno, c.args[0].value, ""))
+    # patterns assembled from local string constants (f-strings / concatenation) and used by name: constant-folded
+    for rel in ("nemoguardrails/colang/v1_0/lang/colang_parser.py", "nemoguardrails/colang/v2_x/lang/parser.py"):
+        if not ctx.tree.exists(rel):
+            continue
+        for fn in functions(ctx.tree.ast(rel)):
+            env = {}
+
+            def fold(e):
+                if isinstance(e, ast.Constant) and isinstance(e.value, str):
+                    return e.value
+                if isinstance(e, ast.Name):
+                    return env.get(e.id)
+                if isinstance(e, ast.JoinedStr):
+                    out = ""
+                    for v in e.values:
+                        if isinstance(v, ast.Constant):
+                            out += str(v.value)
+                        elif isinstance(v, ast.FormattedValue) and v.format_spec is None and v.conversion == -1:
+                            x = fold(v.value)
+                            if x is None:
+                                return None
+                            out += x
+                        else:
+                            return None
+                    return out
+                if isinstance(e, ast.BinOp) and isinstance(e.op, ast.Add):
+                    a_, b_ = fold(e.left), fold(e.right)
+                    return None if a_ is None or b_ is None else a_ + b_
+                return None
+            for n_ in sorted((x for x in ast.walk(fn) if isinstance(x, (ast.Assign, ast.Call))), key=lambda x: (x.lineno, x.col_offset)):
+                if isinstance(n_, ast.Assign) and len(n_.targets) == 1 and isinstance(n_.targets[0], ast.Name):
+                    v = fold(n_.value)
+                    if v is not None and ("re" in n_.targets[0].id.lower() or "pattern" in n_.targets[0].id.lower() or "regex" in n_.targets[0].id.lower()):
+                        env[n_.targets[0].id] = v
+                    elif n_.targets[0].id in env:
+                        del env[n_.targets[0].id]
+                elif isinstance(n_, ast.Call) and isinstance(n_.func, ast.Attribute) and isinstance(n_.func.value, ast.Name) and n_.func.value.id == "re" \
+                        and n_.args and isinstance(n_.args[0], ast.Name) and n_.args[0].id in env:
+                    regs.append((rel, n_.lineno, env[n_.args[0].id], ""))
     ctx.floor("C13.c.regex", LARK, "regular expressions in the lexers/parsers", len(regs), 20)
+    seen_pat = set()
+    for rel, ln, pat, flags in regs:
+        if (rel, pat) in seen_pat:
+            continue
+        seen_pat.add((rel, pat))
+        try:
+            tree2 = sre.parse(pat, (re.S if "s" in flags else 0) | (re.I if "i" in flags else 0))
+        except Exception:
+            tree2 = None
+        amb = _ambiguous_iteration(tree2, sre) if tree2 is not None else None
+        if amb:
+            ctx.check("C13.c.regex", rel, "regex", pat[:200], False,
+                      "a repeated group both starts and ends with an optional run of the same characters (%s): the run between two iterations can be split in two ways, so a line "
+                      "with n such items that finally does not match is tried in 2^n ways - loading a file with one long line of this shape never returns" % amb, line=ln)
     for rel, ln, pat, flags in regs:
         try:
             tree = sre.parse(pat, (re.S if "s" in flags else 0) | (re.I if "i" in flags else 0))
@@ -360,6 +484,86 @@ def c_regexes(ctx):
         ctx.check("C13.c.regex", rel, "regex", pat, not bad,
                   "no nested unbounded quantifier whose inner loop and continuation can match the same character (exponential backtracking => hang on some input)" if not bad
                   else "nested unbounded quantifiers with overlapping first sets: %s" % bad, line=ln)
+
+
+def _klass(op, av):
+    """character class of a single-character item as a set of tokens, or None"""
+    name = str(op)
+    if name == "LITERAL":
+        return {("c", av)} | ({"SPACE"} if chr(av).isspace() else set())
+    if name == "IN":
+        out = set()
+        for o2, a2 in av:
+            if str(o2) == "LITERAL":
+                out.add(("c", a2))
+                if chr(a2).isspace():
+                    out.add("SPACE")
+            elif str(o2) == "CATEGORY":
+                out.add(str(a2))
+                if str(a2) == "CATEGORY_SPACE":
+                    out.add("SPACE")
+            elif str(o2) == "NEGATE":
+                return {"ANY"}
+            else:
+                out.add(str(o2))
+        return out
+    if name == "ANY":
+        return {"ANY"}
+    return None
+
+
+def _edge_runs(items, sre, leading):
+    """classes of the optional runs (x* / x? over one character class) a sequence can begin (leading) or end with, looking through optional groups"""
+    out = set()
+    seq = list(items) if leading else list(reversed(list(items)))
+    for op, av in seq:
+        name = str(op)
+        if name in ("MAX_REPEAT", "MIN_REPEAT"):
+            lo, hi, sub = av
+            sub = list(sub)
+            if len(sub) == 1 and _klass(*sub[0]) is not None:
+                if hi > 1:
+                    out |= _klass(*sub[0])
+                if lo == 0:
+                    continue
+                break
+            if lo == 0:
+                inner = sub[0][1][-1] if len(sub) == 1 and str(sub[0][0]) == "SUBPATTERN" else sub
+                out |= _edge_runs(inner, sre, leading)
+                continue
+            break
+        if name == "SUBPATTERN":
+            out |= _edge_runs(av[-1], sre, leading)
+            break
+        break
+    return out
+
+
+def _ambiguous_iteration(tree, sre):
+    found = []
+
+    def walk(items):
+        for op, av in items:
+            name = str(op)
+            if name in ("MAX_REPEAT", "MIN_REPEAT"):
+                lo, hi, sub = av
+                sub = list(sub)
+                body = sub[0][1][-1] if len(sub) == 1 and str(sub[0][0]) == "SUBPATTERN" else sub
+                if hi == sre.MAXREPEAT and len(list(body)) > 1:
+                    a_, b_ = _edge_runs(body, sre, True), _edge_runs(body, sre, False)
+                    common = (a_ & b_) - set()
+                    if common and ("SPACE" in common or "ANY" in common or any(isinstance(c, tuple) for c in common)):
+                        found.append("runs of %s" % ("white space" if "SPACE" in common else sorted(map(str, common))[:3]))
+                walk(body)
+            elif name == "SUBPATTERN":
+                walk(av[-1])
+            elif name == "BRANCH":
+                for alt in av[1]:
+                    walk(alt)
+            elif name in ("ASSERT", "ASSERT_NOT"):
+                walk(av[1])
+    walk(tree)
+    return found[0] if found else None
 
 
 def _first(items, sre):
